@@ -28,10 +28,17 @@ func New(maxProcessing dag.Metric, warning func(received dag.Metric, processing 
 
 func (s *DataSemaphore) Acquire(weight dag.Metric, timeout time.Duration) bool {
 	deadline := time.Now().Add(timeout)
+	// wake the waiter up when the timeout expires, even if nobody releases anything
+	timer := time.AfterFunc(timeout, func() {
+		s.mu.Lock()
+		s.cond.Broadcast()
+		s.mu.Unlock()
+	})
+	defer timer.Stop()
 	s.mu.Lock()
 	defer s.mu.Unlock()
 	for !s.tryAcquire(weight) {
-		if weight.Size > s.maxProcessing.Size || weight.Num > s.maxProcessing.Num || time.Now().After(deadline) {
+		if weight.Size > s.maxProcessing.Size || weight.Num > s.maxProcessing.Num || !time.Now().Before(deadline) {
 			return false
 		}
 		s.cond.Wait()
@@ -49,6 +56,9 @@ func (s *DataSemaphore) tryAcquire(metric dag.Metric) bool {
 	tmp := s.processing
 	tmp.Num += metric.Num
 	tmp.Size += metric.Size
+	if tmp.Num < s.processing.Num || tmp.Size < s.processing.Size {
+		return false // the sum wrapped around: the request cannot fit
+	}
 	if tmp.Num > s.maxProcessing.Num || tmp.Size > s.maxProcessing.Size {
 		return false
 	}
